@@ -33,6 +33,23 @@ pub fn run(ctx: &Ctx) -> ! {
         }
         std::process::exit(if r.is_ok() { 0 } else { 1 });
     }
+    if ctx.has_flag("--count") {
+        // size of the enumerated spaces without running them (development aid)
+        let fam = |v: Vec<(&'static str, u64)>| {
+            let mut m = std::collections::BTreeMap::new();
+            for (k, n) in v {
+                *m.entry(k).or_insert(0u64) += n;
+            }
+            m
+        };
+        println!("csv-rt      {:?}", fam(csvx::build_blocks(ctx).iter().map(|b| (b.family, b.size())).collect()));
+        println!("csv-grammar {}", csvx::grammar_blocks(ctx).iter().map(|b| b.size()).sum::<u64>());
+        println!("json-rt     {:?}", fam(jsonx::build_blocks(ctx).iter().map(|b| (b.family, b.size())).collect()));
+        let g = jsonx::gspace(ctx);
+        println!("json-grammar numbers={} strings={} whitespace={} structures={}", g.n_num, g.n_str, g.n_ws, g.n_struct);
+        println!("avro        {:?}", fam(avrox::build_blocks(ctx).iter().map(|b| (b.family, b.size())).collect()));
+        std::process::exit(0);
+    }
     let mut st = Stats::new();
     let mut base = 0u64;
     if want(ctx, "csv") {
@@ -58,9 +75,14 @@ pub fn run(ctx: &Ctx) -> ! {
         ctx,
         Level {
             category: "exploration",
-            rule: "every enumerated index is a distinct (option point, schema, cell assignment) triple or a distinct grammar text; a case is non-trivial when it has at least one row / is inside the claimed class".into(),
-            assumptions: vec![],
-            exhaustive_space: "see per-sub-engine keys".into(),
+            rule: "cases are enumerated, never sampled. Round-trip sub-engines: every index is a distinct (option point, schema, cell assignment) triple: option points = all points of the option product within <= k deviations from the default that satisfy the stated unambiguity rules (constructed, not filtered after running); cells = complete product of per-column alphabets for the small shapes, alphabet rotations for 3-column schemas. Grammar sub-engines: every index is a distinct character/token sequence (numbers, string token sequences, whitespace placements, structural token sequences, RFC 4180 field assignments). A round-trip case is non-trivial when it has >= 1 row; a grammar case is non-trivial when it is inside the claimed class (accepted by the independent parser and not in an excluded class).".into(),
+            assumptions: vec![
+                "CSV: null sentinel (after documented trimming) never equals a written value; first-column values do not start with the reader's comment byte unless quoted; QuoteStyle::Never only for typed columns without structural bytes; letter delimiters only for string columns; structural bytes pairwise distinct; empty lines (single empty unquoted field) are not claimed (csv-core skips them)".into(),
+                "JSON: finite floats only; null map values only with explicit_nulls; map keys distinct; reject direction of the grammar check is observed, not enforced (arrow-json documents no strictness; lenient classes are listed in the outcome histogram); lone surrogate escapes, duplicate keys, numbers beyond serde_json's range and heterogeneous arrays (no fitting Arrow schema) are excluded classes".into(),
+                "Avro: types limited to those arrow-avro maps back to the same or a documented wider Arrow type; strict_mode with [T,null] unions and uuid under utf8_view are documented deviations and not constructed; map comparison against apache-avro is order-insensitive (HashMap)".into(),
+                "independent oracles: own RFC 4180 splitter, own strict RFC 8259 parser cross-checked with serde_json (float_roundtrip) on every document, str::parse for floats, own calendar/decimal text decoders, apache-avro 0.22 readers/writers, own Parsing-Canonical-Form + CRC-64-AVRO for single-object headers".into(),
+            ],
+            exhaustive_space: "C17 quantifier restricted to: schemas of <= 3 fields, columns of <= 3 rows (one 40-row batch per Avro codec), alphabets listed in STATUS.md, option points within <= 2 (quick) / 3-4 (thorough) deviations; JSON documents up to 5/6 number characters, 3 string tokens, 5/6 structural tokens".into(),
         },
         st,
     )
